@@ -6,6 +6,9 @@ requests  compose H | compose16 H | count H | hprepend H ASN N | hpeq H H
           (H: API-constructible hops only: `s<1|3|4>/4:` of any length = Segment::new_*; any other
            `s<1..4>/<2|4>:` = a segment cut out of a wire path of that width: at most 255 ASNs, ASNs fit the width)
           wire W HEX | prepend W HEX ASN N | eq W1 HEX1 W2 HEX2      (W = 2 | 4)
+replies that list hops / segments end in `proto=ok`: the harness' iterator-protocol verdict
+(harness/src/common.rs iter_protocol) on hops() / segments() / asns(); the model's iterators are `next`
+sequences, all default consumptions of which observe the same list (Rc/Lemmas/IterProto.lean)
 -/
 namespace Rc.Drv.C13
 open Rc Rc.AsPath
@@ -75,7 +78,7 @@ def handle (ws : List String) : String :=
       | .ok bs =>
         let chk := match check true bs with | .ok _ => "ok" | _ => "err"
         match hops true bs with
-        | .ok hs => s!"ok {hexOrDash bs} chk={chk} hops={showHops hs}"
+        | .ok hs => s!"ok {hexOrDash bs} chk={chk} hops={showHops hs} proto=ok"
         | _ => "panic"
       | .err => "err"
       | .panic => "panic"
@@ -90,7 +93,7 @@ def handle (ws : List String) : String :=
           let chk := match check false b16 with | .ok _ => "ok" | _ => "err"
           let eq := match pathEq false b16 true b32 with | .ok b => bstr b | _ => "panic"
           match hops false b16 with
-          | .ok hs => s!"ok {hexOrDash b16} chk={chk} eq={eq} hasheq={hashEq false b16 true b32} hops={showHops hs}"
+          | .ok hs => s!"ok {hexOrDash b16} chk={chk} eq={eq} hasheq={hashEq false b16 true b32} hops={showHops hs} proto=ok"
           | _ => "panic"
         | _ => "panic"
       | .err => "err"
@@ -116,7 +119,7 @@ def handle (ws : List String) : String :=
       match compose true (List.replicate n (Hop.asn a) ++ h) with
       | .ok bs =>
         match hops true bs with
-        | .ok hs => s!"ok {hexOrDash bs} hops={showHops hs}"
+        | .ok hs => s!"ok {hexOrDash bs} hops={showHops hs} proto=ok"
         | _ => "panic"
       | .err => "err"
       | .panic => "panic"
@@ -128,7 +131,7 @@ def handle (ws : List String) : String :=
       | .ok _ =>
         match segments four bs, toHopPath four bs with
         | .ok ss, .ok hs =>
-          s!"ok segs={showSegs ss} hops={showHops hs} back32={showOB (compose true hs)} back16={showOB (compose false hs)} count={hopCountSel hs} single={bstr (isSingleSequence four bs)}"
+          s!"ok segs={showSegs ss} hops={showHops hs} back32={showOB (compose true hs)} back16={showOB (compose false hs)} count={hopCountSel hs} single={bstr (isSingleSequence four bs)} proto=ok"
         | _, _ => "panic"
       | _ => "err"
     | _, _ => "bad-op"
@@ -140,7 +143,7 @@ def handle (ws : List String) : String :=
         match prepend four bs a n with
         | .ok r =>
           match hops true r with
-          | .ok hs => s!"ok {hexOrDash r} hops={showHops hs}"
+          | .ok hs => s!"ok {hexOrDash r} hops={showHops hs} proto=ok"
           | _ => "panic"
         | .err => "err"
         | .panic => "panic"
